@@ -119,12 +119,16 @@ func ptrTo(base any) any {
 	return p.Interface()
 }
 
-// realIDs: the token "e" stands for the empty id
+// realIDs: the token "e" stands for the empty id; the others for ids with commas in them, chosen so
+// that two different pairs join to the same text ("1,2" + "," + "3" = "1" + "," + "2,3")
+var idOfToken = map[string]string{"e": "", "a": "1,2", "b": "3", "c": "1", "d": "2,3"}
+
 func realIDs(toks []string) []string {
 	out := make([]string, len(toks))
 	for i, t := range toks {
-		if t != "e" {
-			out[i] = t
+		out[i] = t
+		if id, ok := idOfToken[t]; ok {
+			out[i] = id
 		}
 	}
 	return out
@@ -145,17 +149,17 @@ func leafValues(lf fLeaf) (field string, rval, cval any) {
 		} else {
 			c := ""
 			if len(lf.CV.IDs) > 0 {
-				c = lf.CV.IDs[0]
+				c = realIDs(lf.CV.IDs)[0]
 			}
 			cval = c
 		}
 	case "toN":
 		field = "m"
-		rval = append([]string{}, lf.RV.IDs...)
+		rval = realIDs(lf.RV.IDs)
 		if lf.Op == "has" {
-			cval = lf.CV.IDs[0]
+			cval = realIDs(lf.CV.IDs)[0]
 		} else {
-			cval = append([]string{}, lf.CV.IDs...)
+			cval = realIDs(lf.CV.IDs)
 		}
 		// the empty list has two spellings in Go: the same empty set of ids
 		if lf.Table%3 == 1 && len(lf.RV.IDs) == 0 {
@@ -183,6 +187,7 @@ func leafValues(lf fLeaf) (field string, rval, cval any) {
 		}
 		rval = ordValue(lf.Kind, lf.Null, lf.RV, lf.Table)
 		cval = ordValue(lf.Kind, lf.Null, lf.CV, lf.Table)
+
 		// the same instant written in another zone is the same value
 		if lf.Kind == jsonapi.AttrTypeTime && !lf.CV.Nil {
 			zone := time.FixedZone("", 3600*(lf.Table%23-11)+1800)
@@ -204,6 +209,14 @@ func evalLeaf(impl string, lf fLeaf) (res bool, ret string) {
 		r := resourceFor(impl, lf.Kind, lf.Null, field, rval)
 		f := &jsonapi.Filter{Field: field, Op: lf.Op, Val: cval}
 		res = f.IsAllowed(r)
+		if lf.Null && !lf.RV.Nil && reflect.DeepEqual(lf.RV, lf.CV) {
+			// the same comparison with the very pointer the resource holds (a value read from it
+			// earlier): where a value lives does not change the verdict
+			f2 := &jsonapi.Filter{Field: field, Op: lf.Op, Val: r.Get(field)}
+			if f2.IsAllowed(r) != res {
+				ret = "verdict-depends-on-the-address"
+			}
+		}
 	})
 	if p {
 		ret = "panic"
